@@ -9,6 +9,7 @@ import os
 import sys
 
 EVALS = []
+LONG = 'L' * 205          # a string argument that makes string / raw keys longer than 200 characters (still a legal file name)
 
 
 def val(v):
@@ -20,7 +21,7 @@ def val(v):
     if t == 'bool':
         return bool(c)
     if t == 'str':
-        return {100: 'a', 101: 'x', 102: 'y', 103: 'k', 104: 'z'}.get(c, 's%d' % c)
+        return {100: 'a', 101: 'x', 102: 'y', 103: 'k', 104: 'z', 110: '1', 111: LONG}.get(c, 's%d' % c)
     if t == 'none':
         return None
     raise ValueError(v)
@@ -34,15 +35,16 @@ def unval(x):
     if isinstance(x, float):
         return {'t': 'float', 'v': int(x)} if x == int(x) else {'t': 'float', 'v': -999}
     if isinstance(x, str):
-        return {'t': 'str', 'v': {'a': 100, 'x': 101, 'y': 102, 'k': 103, 'z': 104}.get(x, 199)}
+        return {'t': 'str', 'v': {'a': 100, 'x': 101, 'y': 102, 'k': 103, 'z': 104, '1': 110, LONG: 111}.get(x, 199)}
     if x is None:
         return {'t': 'none', 'v': 0}
     return {'t': 'other', 'v': 0}
 
 
-def make_func(sig, name='kf', strret=False):
-    """def kf(<sig>): record an evaluation and return a token describing the binding received"""
-    params = []
+def make_func(sig, name='kf', strret=False, method=False):
+    """def kf(<sig>): record an evaluation and return a token describing the binding received
+    (method=True: def kf(self, <sig>), to be placed in a class body)"""
+    params = ['self'] if method else []
     for p in sig['pos']:
         params.append(p['n'] + ('=%r' % val(p['d']) if p['hd'] else ''))
     if sig['va']:
@@ -133,21 +135,48 @@ def key_hex(key):
 def run_group(klepto, group, km, mode, variant=None, cache=None):
     """mode: 'std' / 'safe' (cached with inf_cache) or 'keygen' (klepto.keygen decorator, keys only)
     returns a trace dict for KeyTrace"""
+    kind = (variant or {}).get('kind', 'plain')      # plain function / functools.partial fixing k / method
+    variant = {k: v for k, v in (variant or {}).items() if k not in ('kind', 'bare')} or None
     func, src = make_func(group['sig'])
     raw, _ = make_func(group['sig'], 'raw')
     ignore = ignore_tuple(group['ign'])
+    if group.get('bare') and len(ignore) == 1:
+        ignore = ignore[0]                 # klepto accepts a single bare name or index
     keymap = make_keymap(klepto, km, **(variant or {}))
     cached = mode in ('std', 'safe')
-    if cached:
+    pkw = {}
+    if kind == 'partial':
+        import functools
+        pkw = {'k': val({'t': 'int', 'v': 1})}       # the keyword-only default is 2: the partial binds another value
+        func = functools.partial(func, **pkw)
+        raw = functools.partial(raw, **pkw)
+        src += 'functools.partial(kf, k=1)'
+    if kind == 'method':
+        mfunc, msrc = make_func(group['sig'], method=True)
+        ign_m = ('self',) + (ignore if isinstance(ignore, tuple) else (ignore,))
+        ns = {}
+        mod = klepto.safe if mode == 'safe' else klepto
+        deco = mod.inf_cache(keymap=keymap, ignore=ign_m) if cached else klepto.keygen(*ign_m, keymap=keymap)
+
+        class Holder(object):
+            kf = deco(mfunc)
+        inst = Holder()
+        f = Holder.__dict__['kf']
+        src = 'class Holder: @cache(ignore=%r) %s' % (ign_m, msrc)
+        call_f = lambda *a, **k: inst.kf(*a, **k)
+        keyfn = (lambda *a, **k: f.key(inst, *a, **k)) if cached else (lambda *a, **k: f(inst, *a, **k))
+    elif cached:
         mod = klepto.safe if mode == 'safe' else klepto
         kw = dict(keymap=keymap, ignore=ignore)
         if cache is not None:
             kw['cache'] = cache
         f = mod.inf_cache(**kw)(func)
         keyfn = f.key
+        call_f = f
     else:
-        f = klepto.keygen(*ignore, keymap=keymap)(func)
+        f = klepto.keygen(*(ignore if isinstance(ignore, tuple) else (ignore,)), keymap=keymap)(func)
         keyfn = f
+        call_f = f
     classes = Classes()
     events = []
     for c in group['calls']:
@@ -155,7 +184,11 @@ def run_group(klepto, group, km, mode, variant=None, cache=None):
         kwargs = {}
         for it in c['k']:
             kwargs[it['n']] = val(it['v'])
-        e = {'call': c, 'exc': 'none', 'kind': 'none', 'evals': 0, 'kc': -1, 'khex': [], 'later': []}
+        # the call that reaches the function: a partial's keywords unless the call overrides them
+        eff = c
+        if pkw:
+            eff = {'p': c['p'], 'k': list(c['k']) + [{'n': n, 'v': unval(v)} for n, v in pkw.items() if n not in kwargs]}
+        e = {'call': eff, 'exc': 'none', 'kind': 'none', 'evals': 0, 'kc': -1, 'khex': [], 'later': []}
         try:
             e['bind'] = token_log(raw(*args, **kwargs))
         except TypeError:
@@ -171,7 +204,7 @@ def run_group(klepto, group, km, mode, variant=None, cache=None):
             i0 = f.info()
             n0 = len(EVALS)
             try:
-                r = f(*args, **kwargs)
+                r = call_f(*args, **kwargs)
                 e['ret'] = token_log(r) if isinstance(r, tuple) and len(r) == 3 else token_log(None)
             except Exception as ex:
                 e['exc'] = 'call:' + type(ex).__name__
@@ -180,8 +213,9 @@ def run_group(klepto, group, km, mode, variant=None, cache=None):
             e['kind'] = 'hit' if i1.hit > i0.hit else 'load' if i1.load > i0.load else 'miss' if i1.miss > i0.miss else 'none'
         events.append(e)
     return {'sig': group['sig'], 'ign': group['ign'], 'km': km, 'cached': cached, 'events': events,
-            'meta': {'sid': group['sid'], 'iid': group['iid'], 'mode': mode, 'variant': variant, 'src': src,
-                     'ignore': [str(x) for x in ignore]}}
+            'meta': {'sid': group['sid'], 'iid': group['iid'], 'mode': mode, 'variant': dict(variant or {}, kind=kind), 'src': src,
+                     'ignore': [str(x) for x in (ignore if isinstance(ignore, tuple) else (ignore,))], 'kind': kind,
+                     'bare': bool(group.get('bare'))}}
 
 
 # ---------------------------------------------------------------------------------------------
